@@ -233,8 +233,9 @@ class ConstBitStream(Bits):
             pos += len(self)
         if pos < 0 or pos > len(self):
             raise ValueError("Overwrite starts outside boundary of bitstring.")
+        length = len(bs)  # bs may be self, whose length can change
         self._overwrite(bs, pos)
-        self._pos = pos + len(bs)
+        self._pos = pos + length
 
     def find(self, bs: BitsType, /, start: Optional[int] = None, end: Optional[int] = None,
              bytealigned: Optional[bool] = None) -> Union[Tuple[int], Tuple[()]]:
